@@ -5,8 +5,16 @@ refuted with a witness for BM10ex), exact relations between the squared-DVCS ter
 BM10 / BM10tw2 and the 1/Q² bound they imply.
 Correspondence: all ~250 translated coefficient functions, the T-terms and the XS assembly of all five
 sets versus the real code (1e-10) — the tie that makes a leading-power error in any single coefficient
-visible.  Oracle stream (N-version): pairwise differences of the sets at Q² ∈ {1e3, 1e4, 1e5}, fixed
-xB, t, y, φ, must stay below 60/Q² of the scale; LP bilinearity on the real code.
+visible.  Oracle streams: (N-version) pairwise differences of the sets at Q² ∈ {1e3, 1e4, 1e5}, fixed
+xB, t, y, φ, must stay below 60/Q² of the scale; (lp-reference) the twist-two longitudinal-target squared-DVCS
+term of BM10 / BM10tw2 against the formula of the papers re-typed here (the LP N-version comparison has no
+other independent member: BM10tw2 inherits BM10's coefficient and BM10ex carries a recorded defect); LP
+bilinearity on the real code.
+
+The recorded defect of BM10ex (known_findings.json: its C^DVCS_LP is a copy of the unpolarised C^DVCS_unp) is
+matched by SIGNATURE: a disagreement is filed under the known keys only when BM10ex's value equals what that
+cause predicts (computed here from a re-typed BM10 (2.22)) and, for the pairs, the partner agrees with the
+re-typed reference.  Anything else gets its own key.
 """
 import itertools
 import math
@@ -14,7 +22,10 @@ import math
 import bmkcommon as B
 import common
 
-BOUND = 60.0      # |A - B| / scale <= BOUND / Q2  (measured on the pinned tree: <= 11.6 over 400 kinematic points)
+# |A - B| / scale <= BOUND / Q2.  Measured on the pinned tree: <= 11.6 over the 400 kinematic points of the first survey,
+# 27.8 over 35,000 samples of the harness audit (TINTunp, BMK vs the BM10 family, xB -> 0.6): the margin is about 2x
+BOUND = 60.0
+TOL_REF = 1e-10     # code vs re-typed formula, relative to the sum of the absolute values of the terms
 
 
 def point(xB, y, t, phi, Q2, lam, chg):
@@ -23,6 +34,94 @@ def point(xB, y, t, phi, Q2, lam, chg):
     return dict(xB=xB, Q2=Q2, t=t, phi=phi, in1energy=E, exptype='fixed target', process='ep2epgamma',
                 in1charge=chg, in1polarization=lam, in2particle='p')
 
+
+# ------------------------------------------------------------------------------------------------
+# independent expressions (typed from the papers / the formula comments, never by calling the method under test)
+# ------------------------------------------------------------------------------------------------
+
+def lp_dvcs_reference(m, xB, t, Q2, y, eps2, lam):
+    """twist-two |T_DVCS|² for the longitudinally polarised target (effective CFFs zero, unit target polarisation):
+         T = 1/(y² Q²) · c0_LP,      c0_LP = 2 λ y (2−y)/√(1+ε²) · C_LP(F, F*)                    [BM10 (2.17), (2.20)]
+         C_LP = { 4(1−xB)(H H̃* + H̃ H*) − xB²(H Ẽ* + Ẽ H* + H̃ E* + E H̃*)
+                  − xB (xB²/2 + (2−xB) t/(4M²)) (E Ẽ* + Ẽ E*) } / (2−xB)²            [BMK hep-ph/0112108 (68) = BM10 (2.23) at leading power]
+       in real components (X Y* + Y X* = 2 (ReX ReY + ImX ImY)).  Returns (value, sum of |terms|)."""
+    from gepard.constants import Mp2
+    c_ee = 2 * xB * (xB ** 2 / 2 + (2 - xB) * t / (4 * Mp2))
+    prods = [(8 * (1 - xB), 'H', 'Ht'), (-2 * xB ** 2, 'H', 'Et'), (-2 * xB ** 2, 'Ht', 'E'), (-c_ee, 'E', 'Et')]
+    pre = 2 * lam * y * (2 - y) / math.sqrt(1 + eps2) / (2 - xB) ** 2 / (y * y * Q2)
+    val = mag = 0.0
+    for c, a, b in prods:
+        for part in ('Re', 'Im'):
+            val += c * m[part + a] * m[part + b]
+            mag += abs(c * m[part + a] * m[part + b])
+    return float(pre * val), float(abs(pre) * mag)
+
+
+def ccal_dvcs_unp_exact(L, R, xB, Q2, t, eps2):
+    """C^DVCS_unp(F_L, F_R*) of BM10 (2.22) with the power-suppressed terms kept (the expression in the comment
+    'BM10 (2.22), from DM's notebook'), re-typed term by term; L, R: dicts H, E, Ht, Et of complex numbers (R enters conjugated)"""
+    from gepard.constants import Mp2
+    H, E, Ht, Et = L['H'], L['E'], L['Ht'], L['Et']
+    Hc, Ec, Htc, Etc = (R[k].conjugate() for k in ('H', 'E', 'Ht', 'Et'))
+    A = Q2 + t * xB
+    D = Q2 * (2 - xB) + t * xB
+    inner = (4 * (1 - xB) * H * Hc
+             + 4 * (1 - xB + eps2 * (2 * Q2 + t) / (4 * A)) * Ht * Htc
+             - (Q2 + t) ** 2 * xB ** 2 / (Q2 * A) * (H * Ec + E * Hc)
+             - Q2 * xB ** 2 / A * (Ht * Etc + Et * Htc)
+             - ((Q2 + t) ** 2 * xB ** 2 / (Q2 * A) + t * D ** 2 / (4 * Mp2 * Q2 * A)) * E * Ec
+             - Q2 * t * xB ** 2 / (4 * Mp2 * A) * Et * Etc)
+    return Q2 * A * inner / D ** 2
+
+
+def cffs_of(m, eff=False):
+    s = 'eff' if eff else ''
+    return {k: complex(m.get('Re' + k + s, 0.0), m.get('Im' + k + s, 0.0)) for k in ('H', 'E', 'Ht', 'Et')}
+
+
+def bm10ex_lp_under_recorded_cause(m, kin):
+    """what BM10ex.TDVCS2LP returns if — as recorded in known_findings.json — its C^DVCS_LP is the unpolarised C^DVCS_unp:
+    the LP harmonics of BM10 (2.20), (2.21) assembled here with the re-typed (2.22) in the place of (2.23)"""
+    lam, y, e2, xB, Q2, t = kin.in1polarization, kin.y, kin.eps2, kin.xB, kin.Q2, kin.t
+    F, Feff = cffs_of(m), cffs_of(m, eff=True)
+    K = math.sqrt(max(kin.K2, 0.0))
+    c0 = 2 * lam * y * (2 - y) / math.sqrt(1 + e2) * ccal_dvcs_unp_exact(F, F, xB, Q2, t, e2).real
+    pp = -8 * K / (2 - xB) / (1 + e2)
+    mixed = ccal_dvcs_unp_exact(Feff, F, xB, Q2, t, e2)
+    c1 = pp * (-lam * y * math.sqrt(1 + e2)) * mixed.real
+    s1 = pp * (2 - y) * mixed.imag
+    return float((c0 + c1 * math.cos(kin.phi) + s1 * math.sin(kin.phi)) / (y * y * Q2))
+
+
+def explained_by_recorded_cause(m, kin, value, scale):
+    """BM10ex's TDVCS2LP equals the value the recorded cause predicts (1e-9 of the scale)"""
+    try:
+        pred = bm10ex_lp_under_recorded_cause(m, kin)
+    except Exception:                # a point without the prepared fields: no signature, no match
+        return False, None
+    return abs(value - pred) <= 1e-9 * max(abs(scale), abs(pred), 1e-300), pred
+
+
+def lp_reference_case(rep, fs, m, kin, value, where):
+    """BM10 / BM10tw2: TDVCS2LP (effective CFFs zero) against the re-typed formula; True when it agrees"""
+    ref, mag = lp_dvcs_reference(m, kin.xB, kin.t, kin.Q2, kin.y, kin.eps2, kin.in1polarization)
+    dev = abs(value - ref) / max(mag, 1e-300)
+    w = rep.coverage.setdefault('worst_lp_reference_dev', 0.0)
+    rep.coverage['worst_lp_reference_dev'] = max(w, dev if dev == dev else float('inf'))
+    if dev <= TOL_REF:
+        return True
+    rep.violation('lp-reference/%s/TDVCS2LP' % fs,
+                  'TDVCS2LP of %s = %r but the twist-two formula 1/(y²Q²)·2λy(2−y)/√(1+ε²)·C_LP with C_LP = {4(1−xB)(HH̃*+H̃H*) − xB²(HẼ*+ẼH*+H̃E*+EH̃*) '
+                  '− xB(xB²/2+(2−xB)t/4M²)(EẼ*+ẼE*)}/(2−xB)² gives %r (ratio %.6g; xB=%.4g, Q2=%.4g, t=%.4g, y=%.4g, phi=%.4g, helicity %+d; %s)' % (
+                      fs, value, ref, value / ref if ref else float('nan'), kin.xB, kin.Q2, kin.t, kin.y, kin.phi, kin.in1polarization, where),
+                  dict(set=fs, term='TDVCS2LP', xB=kin.xB, Q2=kin.Q2, t=kin.t, y=kin.y, phi=kin.phi, helicity=kin.in1polarization, model=m,
+                       code=value, formula=ref))
+    return False
+
+
+# ------------------------------------------------------------------------------------------------
+# streams
+# ------------------------------------------------------------------------------------------------
 
 def nversion(rep, rng, n):
     import gepard as g
@@ -36,6 +135,7 @@ def nversion(rep, rng, n):
         tmin3 = g.tmin(1e3, xB, 4 * xB ** 2 * Mp2 / 1e3)
         t = rng.uniform(-1, min(tmin3, -1e-3) - 1e-3)
         vals = {}
+        replay = dict(xB=xB, y=y, t=t, phi=phi, Q2=[1e3, 1e4, 1e5], helicity=lam, charge=chg, model=m)
         try:
             for Q2 in (1e3, 1e4, 1e5):
                 for fs in B.FORMULA_SETS:
@@ -47,8 +147,18 @@ def nversion(rep, rng, n):
                     if fs in B.LP_SETS:
                         vals[(fs, Q2, 'TDVCS2LP')] = float(th.TDVCS2LP(kin))
                         vals[(fs, Q2, 'TINTLP')] = float(th.TINTLP(kin))
+                        if fs == 'BM10ex':
+                            vals[(fs, Q2, 'explained')] = explained_by_recorded_cause(m, kin, vals[(fs, Q2, 'TDVCS2LP')],
+                                                                                      vals[(fs, Q2, 'TDVCS2unp')])
+                        else:
+                            rep.case('lp-reference', (fs, trial, Q2))
+                            vals[(fs, Q2, 'agrees-with-formula')] = lp_reference_case(rep, fs, m, kin, vals[(fs, Q2, 'TDVCS2LP')],
+                                                                                      'N-version stream')
         except Exception as e:
-            rep.violation('nversion/exception/' + type(e).__name__, 'evaluation raised %r' % (e,), dict(xB=xB, y=y, t=t, phi=phi))
+            # a failing input of the property only when the package itself raised; a fault of the harness's own work is re-raised
+            if not B.in_real_code(e):
+                raise
+            rep.violation('nversion/exception/' + type(e).__name__, 'evaluation raised %r' % (e,), replay)
             continue
         rep.case('nversion', (trial, xB, y), sample=dict(xB=xB, y=y, t=t, phi=phi) if trial < 2 else None)
         for a, b in itertools.combinations(B.FORMULA_SETS, 2):
@@ -61,12 +171,50 @@ def nversion(rep, rng, n):
                     r = abs(A - Bv) / sc
                     if r * Q2 > BOUND:
                         pair = '%s-%s' % (a, b)
-                        rep.violation('bjorken/%s/%s' % (term, pair),
+                        key = 'bjorken/%s/%s' % (term, pair)
+                        why = ''
+                        if term == 'TDVCS2LP' and 'BM10ex' in (a, b):
+                            # the recorded defect of BM10ex: only when BM10ex's value IS what the recorded cause predicts and the
+                            # partner IS the re-typed twist-two formula; any other LP disagreement of these pairs is a new one
+                            other = b if a == 'BM10ex' else a
+                            expl, pred = vals[('BM10ex', Q2, 'explained')]
+                            if not (expl and vals[(other, Q2, 'agrees-with-formula')]):
+                                key = 'bjorken-unexplained/%s/%s' % (term, pair)
+                                why = (' — NOT the recorded defect of BM10ex: its value %r %s the value %r that a C_LP equal to C_unp gives, %s %s '
+                                       'the re-typed formula' % (vals[('BM10ex', Q2, term)], 'equals' if expl else 'differs from', pred, other,
+                                                                 'agrees with' if vals[(other, Q2, 'agrees-with-formula')] else 'differs from'))
+                        rep.violation(key,
                                       '%s of %s and %s differ by %.3g of the scale at Q2=%g (xB=%.4g, t=%.4g, y=%.4g, phi=%.4g): '
-                                      '%r vs %r; 1/Q2 convergence requires <= %.3g' % (term, a, b, r, Q2, xB, t, y, phi, A, Bv, BOUND / Q2),
+                                      '%r vs %r; 1/Q2 convergence requires <= %.3g%s' % (term, a, b, r, Q2, xB, t, y, phi, A, Bv, BOUND / Q2, why),
                                       dict(term=term, sets=[a, b], Q2=Q2, xB=xB, t=t, y=y, phi=phi, helicity=lam, charge=chg, model=m,
                                            values=[A, Bv]))
                         break
+
+
+def lp_reference(rep, rng, n):
+    """BM10 / BM10tw2 at physical kinematics of any Q² (fixed target and collider), twist-two CFFs: TDVCS2LP against the re-typed
+    formula.  (The formula is the leading-power one: these two sets are DEFINED by it, at every Q².)"""
+    for i in range(n):
+        fs = ['BM10', 'BM10tw2'][i % 2]
+        m = B.random_m(rng, with_eff=False)
+        if i % 5 == 0:      # single products switched on alone: each coefficient of C_LP seen in isolation
+            keep = [('H', 'Ht'), ('H', 'Et'), ('Ht', 'E'), ('E', 'Et')][(i // 5) % 4]
+            for k in list(m):
+                if k not in ('F1', 'F2') and k[2:] not in keep:
+                    m[k] = 0.0
+        kw = B.random_kinematics(rng)
+        kw['in1polarization'] = rng.choice([-1, 1])
+        th = B.theory(fs, m)
+        pt, kin = B.prepared(kw)
+        try:
+            v = float(th.TDVCS2LP(kin))
+        except Exception as e:
+            if not B.in_real_code(e):
+                raise
+            rep.violation('lp-reference/exception/' + type(e).__name__, '%s.TDVCS2LP raised %r' % (fs, e), dict(set=fs, kinematics=kw, model=m))
+            continue
+        rep.case('lp-reference', (fs, i, kw['xB'], kw['Q2']), sample=dict(set=fs, kinematics=kw, value=v) if i < 2 else None)
+        lp_reference_case(rep, fs, m, kin, v, 'lp-reference stream')
 
 
 def parity(rep, rng, n):
@@ -88,13 +236,21 @@ def parity(rep, rng, n):
             v = float(th.TDVCS2LP(kin))
             ref = abs(float(th.TDVCS2unp(kin))) + 1e-300
         except Exception as e:
-            rep.violation('parity/exception/' + type(e).__name__, '%s.TDVCS2LP raised %r' % (fs, e), dict(set=fs))
+            if not B.in_real_code(e):
+                raise
+            rep.violation('parity/exception/' + type(e).__name__, '%s.TDVCS2LP raised %r' % (fs, e), dict(set=fs, kinematics=kw, model=m))
             continue
         rep.case('parity', (fs, which, i), sample=dict(set=fs, which=which, value=v) if i < 3 else None)
         if abs(v) > 1e-12 * ref:
-            rep.violation('parity/%s/TDVCS2LP' % fs,
-                          'TDVCS2LP of %s = %r with all %s CFFs zero (TDVCS2unp = %r): not bilinear vector x axial' % (
-                              fs, v, 'axial' if which == 'zeroAx' else 'vector', ref),
+            key, why = 'parity/%s/TDVCS2LP' % fs, ''
+            if fs == 'BM10ex':
+                expl, pred = explained_by_recorded_cause(m, kin, v, ref)
+                if not expl:
+                    key = 'parity-unexplained/BM10ex/TDVCS2LP'
+                    why = ' — NOT the recorded defect of BM10ex: a C_LP equal to C_unp would give %r' % (pred,)
+            rep.violation(key,
+                          'TDVCS2LP of %s = %r with all %s CFFs zero (TDVCS2unp = %r): not bilinear vector x axial%s' % (
+                              fs, v, 'axial' if which == 'zeroAx' else 'vector', ref, why),
                           dict(set=fs, which=which, kinematics=kw, model=m, value=v))
 
 
@@ -116,7 +272,9 @@ def reuse_stream(rep, rng, n):
             pt2, fresh = B.prepared(kw)
             ref = {tname: float(getattr(th2, tname)(fresh)) for tname in terms}
         except Exception as e:
-            rep.violation('reuse/exception/' + type(e).__name__, '%s raised %r' % (fs, e), dict(set=fs, kinematics=kw))
+            if not B.in_real_code(e):
+                raise
+            rep.violation('reuse/exception/' + type(e).__name__, '%s raised %r' % (fs, e), dict(set=fs, kinematics=kw, first_model=m1, second_model=m2))
             continue
         rep.case('reuse', (fs, i), sample=dict(set=fs) if i < 2 else None)
         for tname in terms:
@@ -136,6 +294,7 @@ def run(rep):
     nversion(rep, rng, (15 if quick else 600) * (3 if (broken or not ok) else 1))
     parity(rep, rng, 60 if quick else 2000)
     reuse_stream(rep, rng, 25 if quick else 600)
+    lp_reference(rep, rng, 60 if quick else 2000)
     for kind, fset, e, v, o, kw, m in broken[:5]:
         if not rep.violations:
             rep.violation('model/%s/%s/%s' % (kind, fset, e), 'translated model and code disagree on %s.%s: code %r model %r' % (fset, e, v, o),
@@ -143,9 +302,15 @@ def run(rep):
     if not ok and not rep.violations:
         rep.violation('lean', 'Lean side of C06 no longer checks: ' + why, dict(reason=why), found_input=False)
     rep.notes.append('oracle streams: N-version comparison of the five sets at Q2 = 1e3, 1e4, 1e5 (bound %g/Q2 of the scale '
-                     'max(|A|,|B|, 0.1 sqrt(|T_BH T_DVCS|))) and LP bilinearity on the real code' % BOUND)
-    rep.assumptions += ['effective (twist-three) CFFs are zero in the N-version stream, as in the property (eight CFFs)',
-                        'the 1/Q2 bound constant 60 is 5x the largest value measured on the pinned tree']
+                     'max(|A|,|B|, 0.1 sqrt(|T_BH T_DVCS|))), the twist-two LP squared-DVCS term of BM10 / BM10tw2 against the re-typed '
+                     'formula, and LP bilinearity on the real code' % BOUND)
+    rep.assumptions += ['effective (twist-three) CFFs are zero in the N-version and lp-reference streams, as in the property (eight CFFs)',
+                        'the 1/Q2 bound constant 60 is about 2x the largest value measured on the pinned tree (27.8 over 35,000 samples: '
+                        'TINTunp, BMK vs the BM10 family, xB -> 0.6; 11.6 over the first 400 points)',
+                        'TDVCS2LP of BM10 / BM10tw2 vs the re-typed formula: %g of the sum of the absolute values of its terms (rounding only)' % TOL_REF,
+                        'the known-finding keys of BM10ex (parity/…, bjorken/TDVCS2LP/BM10ex-BM10, …-BM10tw2) are assigned only when BM10ex\'s value '
+                        'equals, to 1e-9 of the scale, the value that C_LP := C_unp (re-typed BM10 (2.22)) predicts and the partner set agrees with '
+                        'the re-typed twist-two formula; otherwise the key is bjorken-unexplained/… / parity-unexplained/…']
     return rep.finish(level='proof', checker_cmd='tools/regen.py (py2lean) ; lake build Props.C06 ; #print axioms ; gepdriver c06.* vs bmk.py',
                       trusted=['Lean 4.33 kernel', 'tools/py2lean.py (validated by correspondence on every run)', 'harness/props/C06.py'])
 
